@@ -99,6 +99,12 @@ async fn cross_view(seq: &mut Seq, rep: &mut EpReport, after: &str) {
             }
         }
         let reported = by_topic.get(t).cloned().unwrap_or_default();
+        // seen from C13: the two listings disagree about which subscriptions there are (one that its
+        // topic lists is missing from its project's listing, or the other way round)
+        let missing: Vec<&String> = listed.iter().filter(|n| !all_subs.contains_key(*n)).collect();
+        if !missing.is_empty() {
+            rep.viol("C13", "C13:listings-disagree", format!("after {}: ListTopicSubscriptions({}) lists {:?}, which ListSubscriptions of the project does not enumerate", after, short(t), missing.iter().map(|s| short(s)).collect::<Vec<_>>()));
+        }
         if listed != reported {
             rep.viol(
                 "C11",
